@@ -388,36 +388,112 @@ for _h in ('h0', 'h1'):
   setattr(MNode, f'{_h}_remat', nn.remat(getattr(MNode, f'{_h}_plain')))
 
 
+class MMid(nn.Module):
+  """A stateful leaf one level further down (setup-defined)."""
+  dim: int = 2
+
+  def setup(self):
+    self.counter = MLeaf(self.dim)
+
+  def __call__(self, x):
+    return jnp.tanh(self.counter(x)) + x
+
+
+class SNode(nn.Module):
+  """Setup-style twin of MNode: the sub-modules exist once and are used by
+  the body and by the (transformed) helper methods, before and after each
+  other."""
+  spec: Any = None
+  dim: int = 2
+  mode: str = 'plain'
+
+  def setup(self):
+    self.mid = MMid(self.dim)
+    self.leaf = MLeaf(self.dim)
+    self.lin = nn.Dense(self.dim)
+
+  def _ops(self, x, ops):
+    for op in ops:
+      k = op['op']
+      if k in ('dense', 'mid'):
+        x = self.mid(x)         # stateful two levels down
+      elif k == 'child':
+        x = self.leaf(x)        # stateful one level down
+      elif k == 'sow':
+        x = self.lin(x)
+      elif k == 'tanh':
+        x = jnp.tanh(x)
+      elif k == 'rng':
+        x = x + jax.random.uniform(self.make_rng('noise'), ())
+      elif k == 'call':
+        x = getattr(self, f'h{op["h"]}_{self.mode}')(x)
+    return x
+
+  def __call__(self, x):
+    return self._ops(x, L.thaw(self.spec)['body'])
+
+  def h0_plain(self, x):
+    return self._ops(x, L.thaw(self.spec)['helpers'][0])
+
+  def h1_plain(self, x):
+    return self._ops(x, L.thaw(self.spec)['helpers'][1])
+
+
+for _h in ('h0', 'h1'):
+  setattr(SNode, f'{_h}_jit', nn.jit(getattr(SNode, f'{_h}_plain')))
+  setattr(SNode, f'{_h}_remat', nn.remat(getattr(SNode, f'{_h}_plain')))
+
+
 # the same helpers transformed through the class form, nn.jit(Cls, methods=...)
 METHOD_CLS = {
     'cls_jit': nn.jit(MNode, methods=['h0_plain', 'h1_plain']),
     'cls_remat': nn.remat(MNode, methods=['h0_plain', 'h1_plain']),
 }
+METHOD_CLS_SETUP = {
+    'cls_jit': nn.jit(SNode, methods=['h0_plain', 'h1_plain']),
+    'cls_remat': nn.remat(SNode, methods=['h0_plain', 'h1_plain']),
+}
 
 
 def method_case():
-  hop = st.sampled_from([{'op': 'dense'}, {'op': 'dense'}, {'op': 'child'},
-                         {'op': 'sow', 'name': 's'}, {'op': 'rng'},
-                         {'op': 'tanh'}])
-  helper = st.lists(hop, min_size=1, max_size=3)
-  bop = st.one_of(hop, st.sampled_from([{'op': 'call', 'h': 0},
-                                        {'op': 'call', 'h': 0},
-                                        {'op': 'call', 'h': 1}]))
-  return st.fixed_dictionaries({
-      'helpers': st.tuples(helper, helper).map(list),
-      'body': st.lists(bop, min_size=1, max_size=5),
-      'dim': st.integers(1, 3), 'mode': st.sampled_from(['jit', 'jit',
-                                                         'remat', 'cls_jit',
-                                                         'cls_remat']),
-      'seed': st.integers(0, 2**16),
-      'filters': st.lists(st.sampled_from([
-          False, True, ['counters'], ['counters', 'intermediates'],
-          ['intermediates']]), min_size=1, max_size=2)})
+  def make(style):
+    if style == 'setup':
+      # dense -> the sub-module that is stateful two levels down, child ->
+      # the one that is stateful one level down; dense alphabet so that
+      # "used outside, inside a transformed helper, outside again" is common
+      hop = st.sampled_from([{'op': 'dense'}, {'op': 'dense'},
+                             {'op': 'child'}, {'op': 'tanh'}])
+      min_body = 3
+    else:
+      hop = st.sampled_from([{'op': 'dense'}, {'op': 'dense'},
+                             {'op': 'child'}, {'op': 'sow', 'name': 's'},
+                             {'op': 'rng'}, {'op': 'tanh'}])
+      min_body = 1
+    helper = st.lists(hop, min_size=1, max_size=3)
+    bop = st.one_of(hop, st.sampled_from([{'op': 'call', 'h': 0},
+                                          {'op': 'call', 'h': 0},
+                                          {'op': 'call', 'h': 1}]))
+    return st.fixed_dictionaries({
+        'helpers': st.tuples(helper, helper).map(list),
+        'body': st.lists(bop, min_size=min_body, max_size=6 if style ==
+                         'setup' else 5),
+        'dim': st.integers(1, 3), 'mode': st.sampled_from(
+            ['jit', 'jit', 'remat', 'cls_jit', 'cls_remat']),
+        'seed': st.integers(0, 2**16),
+        # compact (sub-modules created where they are used) or setup style
+        # (the same sub-modules used by body and helpers, in any order)
+        'style': st.just(style),
+        'filters': st.lists(st.sampled_from([
+            False, True, ['counters'], ['counters', 'intermediates'],
+            ['intermediates']]), min_size=1, max_size=2)})
+  return st.one_of(make('compact'), make('compact'), make('setup'))
 
 
 @clause('method_transforms', strategy=method_case, quick=200, thorough=8000,
         quick_shards=8, thorough_shards=16, shrink=False,
-        rule='a compact module whose body (1-5 ops) calls one or two helper '
+        rule='a compact module (or a setup-style one whose sub-modules, one '
+        'of them stateful two levels down, are shared by body and helpers) '
+        'whose body (1-5 ops) calls one or two helper '
         'methods, each 0-3 times; helpers create auto-named Dense / custom '
         'sub-modules with a counter, sow and draw random numbers in the '
         'module scope; the helpers are plain methods, decorated with '
@@ -431,11 +507,14 @@ def method_case():
 def method_transforms(case, ctx):
   spec = L.freeze_json({'body': case['body'], 'helpers': case['helpers']})
   D, mode, seed = case['dim'], case['mode'], case['seed']
-  plain = MNode(spec=spec, dim=D, mode='plain')
+  setup_style = case.get('style', 'compact') == 'setup'
+  Node = SNode if setup_style else MNode
+  plain = Node(spec=spec, dim=D, mode='plain')
   if mode in METHOD_CLS:
-    trans = METHOD_CLS[mode](spec=spec, dim=D, mode='plain')
+    trans = (METHOD_CLS_SETUP if setup_style else METHOD_CLS)[mode](
+        spec=spec, dim=D, mode='plain')
   else:
-    trans = MNode(spec=spec, dim=D, mode=mode)
+    trans = Node(spec=spec, dim=D, mode=mode)
   is_remat = mode.endswith('remat')
   x = jnp.asarray(np.random.default_rng(seed).normal(size=(2, D)),
                   jnp.float32)
@@ -488,7 +567,8 @@ def method_transforms(case, ctx):
   creates = lambda h: any(o['op'] in ('dense', 'child')
                           for o in case['helpers'][h])
   ctx.note(labels=[mode, f'calls{sum(calls.values())}',
-                   'draws' if draws else 'nodraws'],
+                   'draws' if draws else 'nodraws',
+                   'setup' if setup_style else 'compact'],
            nontrivial=any(n >= 2 and creates(h) for h, n in calls.items()))
 
 
